@@ -24,36 +24,95 @@ def marker(i, ty, gen=0):
     return pt.Int(n), n
 
 
+_HELPERS = {}
+
+
+def helpers():
+    """By-reference accessors (created once per build): set/get through a ScratchVar parameter, and the same
+    forwarded through a second subroutine."""
+    if not _HELPERS:
+        @pt.Subroutine(pt.TealType.none)
+        def c10_set(ref: pt.ScratchVar, val: pt.Expr):
+            return ref.store(val)
+
+        @pt.Subroutine(pt.TealType.anytype)
+        def c10_get(ref: pt.ScratchVar):
+            return ref.load()
+
+        @pt.Subroutine(pt.TealType.none)
+        def c10_set_fwd(ref: pt.ScratchVar, val: pt.Expr):
+            return c10_set(ref, val)
+
+        @pt.Subroutine(pt.TealType.anytype)
+        def c10_get_fwd(ref: pt.ScratchVar):
+            return c10_get(ref)
+
+        _HELPERS.update(set=c10_set, get=c10_get, set_fwd=c10_set_fwd, get_fwd=c10_get_fwd)
+    return _HELPERS
+
+
 class Var:
-    """One variable of a plan, with uniform store/load/eq over ScratchVar and abi.Uint64."""
+    """One variable of a plan, with uniform store/load/eq over ScratchVar and abi.Uint64.
+    ("ind", ty, id_or_None, mode): a ScratchVar that is NEVER stored/loaded directly, only reached
+      mode "idx"   through ScratchStore/ScratchLoad(index_expression=var.index())
+      mode "dyn"   through its own DynamicScratchVar (set_index, store, load)
+      mode "byref" as a by-reference argument of a setter / getter subroutine
+      mode "fwd"   as a by-reference argument forwarded through a second subroutine."""
 
     def __init__(self, spec, index):
         self.spec = tuple(spec)
         self.index = index
         kind = self.spec[0]
+        self.mode = None
         if kind == "auto":
             self.ty = self.spec[1]
             self.obj = pt.ScratchVar(pt.TealType.uint64 if self.ty == U else pt.TealType.bytes)
         elif kind == "req":
             self.ty = self.spec[1]
             self.obj = pt.ScratchVar(pt.TealType.uint64 if self.ty == U else pt.TealType.bytes, self.spec[2])
+        elif kind == "ind":
+            self.ty = self.spec[1]
+            tt = pt.TealType.uint64 if self.ty == U else pt.TealType.bytes
+            self.obj = pt.ScratchVar(tt) if self.spec[2] is None else pt.ScratchVar(tt, self.spec[2])
+            self.mode = self.spec[3]
+            if self.mode == "dyn":
+                self.d = pt.DynamicScratchVar(tt)
         elif kind == "abi":
             self.ty = U
             self.obj = pt.abi.Uint64()
         else:
             raise ValueError(kind)
-        self.is_scratchvar = kind in ("auto", "req")
-        self.requested = self.spec[2] if kind == "req" else None
+        self.direct = kind in ("auto", "req")            # accessed with plain load/store; may be a DynamicScratchVar target
+        self.in_scratch = kind in ("auto", "req", "ind")
+        self.is_scratchvar = self.direct
+        self.requested = self.spec[2] if kind in ("req", "ind") else None
 
     def store(self, gen=0):
         e, _ = marker(self.index, self.ty, gen)
-        if self.is_scratchvar:
+        if self.direct:
             return self.obj.store(e)
+        if self.mode == "idx":
+            return pt.ScratchStore(slot=None, value=e, index_expression=self.obj.index())
+        if self.mode == "dyn":
+            return pt.Seq(self.d.set_index(self.obj), self.d.store(e))
+        if self.mode == "byref":
+            return helpers()["set"](self.obj, e)
+        if self.mode == "fwd":
+            return helpers()["set_fwd"](self.obj, e)
         return self.obj.set(e)
 
     def load(self):
-        if self.is_scratchvar:
+        if self.direct:
             return self.obj.load()
+        tt = pt.TealType.uint64 if self.ty == U else pt.TealType.bytes
+        if self.mode == "idx":
+            return pt.ScratchLoad(slot=None, type=tt, index_expression=self.obj.index())
+        if self.mode == "dyn":
+            return pt.Seq(self.d.set_index(self.obj), self.d.load())
+        if self.mode == "byref":
+            return helpers()["get"](self.obj)
+        if self.mode == "fwd":
+            return helpers()["get_fwd"](self.obj)
         return self.obj.get()
 
     def check(self, gen=0):
@@ -100,7 +159,7 @@ def section(vars_, plan, tag):
         d = pt.DynamicScratchVar(pt.TealType.anytype)
         for t in targets:
             tv = vars_[t]
-            if not tv.is_scratchvar:
+            if not tv.direct:
                 continue
             exprs.append(d.set_index(tv.obj))
             exprs.append(pt.Assert(d.load() == marker(tv.index, tv.ty, gen[tv.index])[0]))
@@ -126,7 +185,7 @@ def section(vars_, plan, tag):
             else:
                 exprs.append(vars_[i].check(gen[vars_[i].index]))
     requested = {v.requested: v.value(gen[v.index]) for v in vars_ if v.requested is not None}
-    finals = [v.value(gen[v.index]) for v in vars_ if v.is_scratchvar]
+    finals = [v.value(gen[v.index]) for v in vars_ if v.in_scratch]
     return exprs, logs, requested, finals
 
 
@@ -135,6 +194,7 @@ def build(plan):
               "dynamic": {"main": [(0, [targets])], "sub0": ...}, "perm": k, "single_read": bool, "nlogs": n}
     Variable indices are global over the plan (main first, then each sub)."""
     counter = [0]
+    _HELPERS.clear()
 
     def mk(specs):
         out = []
